@@ -495,7 +495,7 @@ def run(tier, pid="C12"):
                 k, clause, exp, obs = bad
                 sig = "B1:%s:%s" % (clause, "fault" if beh["faults"] else "nofault")
                 rep.violation(clause, sig, {"kind": "B1", "work": beh["work"], "faults": beh["faults"],
-                                            "hist": beh["hist"][: k + 1]}, expected=exp, observed=obs)
+                                            "hist": beh["hist"], "failed_at_step": k}, expected=exp, observed=obs)
                 if len(rep.violations) >= 3:
                     break
         if n == 0:
